@@ -15,6 +15,8 @@ from ._ops import one_flag
 
 
 def mech(flags) -> str:
+    if "class_shadows_template_import" in flags:
+        return ":class_shadows_template_import"
     if "package_with_unresolved_imports" in flags:
         return ":package_with_unresolved_imports"
     if "derived_local_captures_property" in flags:
@@ -29,6 +31,8 @@ def judge_roundtrip(vd, ev, a, res, witness_base, prop="C02", capture=None, pkg_
         flags = ["package_with_unresolved_imports"]
     if capture:
         flags = ["derived_local_captures_property"]  # document-level trigger (C18 mechanism), see _ops.derived_local_capture
+    if capture == "class_shadows_template_import":
+        flags = ["class_shadows_template_import"]  # document-level trigger (C01 mechanism), see harness.class_shadows_template_import
     w = dict(witness_base, cls=a["cls"], value=a["value"], label=x.get("label"), flags=flags)
     ev.count("roundtrips")
     if res.get("action_exc"):
@@ -72,6 +76,12 @@ def main() -> int:
         j = run.job(d, want=["manifest"], plan={"fn": "models", "args": {"seed": seed(), "per_model": 14}})
         info[j["id"]] = {"label": label, "cfg": {}, "features": {"sharing"}}
         jobs.append(j)
+    for k, (label, d) in enumerate(docs.interplay_docs()):
+        if not d["components"]["schemas"] or (quick and k % 3):
+            continue
+        j = run.job(d, want=["manifest"], plan={"fn": "models", "args": {"seed": seed(), "per_model": 8}}, cfg={"literal_enums": k % 2 == 0})
+        info[j["id"]] = {"label": label, "cfg": {"literal_enums": k % 2 == 0}, "features": {"interplay", label.split(":")[1].rsplit("_", 1)[0]}}
+        jobs.append(j)
     n = 220 if quick else 5000
     for i in range(n):
         d, feats = docs.random_doc(("C02", seed(), i), hostile=[0, 0, 0.3][i % 3])
@@ -98,6 +108,10 @@ def main() -> int:
         capture = derived_local_capture(r.get("manifest") or {})
         if capture:
             run.ev.count("documents_with_derived_local_capture_trigger")
+        from ..harness import class_shadows_template_import
+        if class_shadows_template_import(r.get("manifest") or {}):
+            capture = "class_shadows_template_import"
+            run.ev.count("documents_with_a_class_named_like_a_template_import")
         nrt = 0
         for a, res in actions_results(r):
             if a["a"] != "roundtrip":
